@@ -13,6 +13,7 @@
 // Reference model of the data = the generated data_spec_t (dataset_gen.h); the dataset views themselves are the
 // subject of C08.
 #include "common.h"
+#include <optional>
 #include "dataset_gen.h"
 
 #include <nano/dataset.h>
@@ -125,8 +126,11 @@ rc::Gen<data_spec_t> gen_c10_data(int min_samples)
     o.value_range = 3.0;
     // per-feature units: float64 features are multiplied by an exact power of two (small units such as 2^-30 included)
     const auto units = rc::gen::container<std::vector<int>>(9, rc::gen::element(0, 0, 0, 0, -10, -20, -30, -40, 5));
-    return rc::gen::map(rc::gen::tuple(gen_data(o), gen::range<int>(1, 3), gen::range<int>(0, 2), units),
-                        [](const std::tuple<data_spec_t, int, int, std::vector<int>>& t)
+    // near ties: in some float64 features every third value is its predecessor times (1 + delta), delta = 4e-11 or 1e-13
+    // (distinct values, hundreds to hundreds of thousands of ulps apart: the mid-point between them is a threshold of its own)
+    const auto nears = rc::gen::container<std::vector<int>>(9, rc::gen::element(0, 0, 0, 0, 0, 0, 1, 2));
+    return rc::gen::map(rc::gen::tuple(gen_data(o), gen::range<int>(1, 3), gen::range<int>(0, 2), units, nears),
+                        [](const std::tuple<data_spec_t, int, int, std::vector<int>, std::vector<int>>& t)
                         {
                             auto      d      = std::get<0>(t);
                             const int k      = std::get<1>(t);
@@ -155,6 +159,15 @@ rc::Gen<data_spec_t> gen_c10_data(int min_samples)
                                         for (auto& v : d.values[static_cast<size_t>(f)])
                                         {
                                             v *= unit;
+                                        }
+                                        const int near = std::get<4>(t)[static_cast<size_t>(f) % 9];
+                                        if (near != 0)
+                                        {
+                                            auto& vs = d.values[static_cast<size_t>(f)];
+                                            for (size_t i = 1; i < vs.size(); i += 3)
+                                            {
+                                                vs[i] = vs[i - 1] * (1.0 + (near == 1 ? 4e-11 : 1e-13));
+                                            }
                                         }
                                     }
                                 }
@@ -1271,6 +1284,15 @@ verdict_t check_optimal(const opt_case_t& c, ctx_t& ctx)
 
         bool      known_dstep = false;
         verdict_t pending_known;
+        const bool           refit_first = (b.data.samples % 2) == 0;
+        std::optional<env_t> ealt;
+        if (refit_first)
+        {
+            auto balt      = b;
+            balt.gen_order = b.gen_order + 1;
+            ealt.emplace(make_env(balt, 1));
+            ctx.label("learner-fitted-on-another-dataset-before");
+        }
         for (const int kind : {l_stump, l_hinge, l_affine, l_dense, l_dstep})
         {
             const std::string who = lname(kind);
@@ -1296,6 +1318,12 @@ verdict_t check_optimal(const opt_case_t& c, ctx_t& ctx)
                 }
             }
             auto       w     = make_wlearner(kind, 0);
+            if (refit_first)
+            {
+                // the learner object has a history: it was fitted before on ANOTHER dataset with the same number of features
+                // (the same data with the generators registered in another order); the fit below must not depend on it
+                w->fit(*ealt->dataset, fit, grads);
+            }
             const auto score = w->fit(*e.dataset, fit, grads);
             const auto H     = brute(kind, fd);
             const auto bnd   = make_bounds(H);
